@@ -60,15 +60,47 @@ class Lock:
         self.f.close()
 
 
+# files of the development whose failure concerns only some properties (everything else concerns all of them)
+SRC_SCOPE = {'theories/Gen/Src': ['C08', 'C09', 'C13', 'C15'], 'theories/SrcTie_clock': ['C15'], 'theories/SrcTie_window': ['C13'],
+             'theories/SrcTie_pt': ['C08', 'C09']}
+
+
+def translate_sources():
+    """Regenerate coq/theories/Gen/Src.v from /repo's current sources (tools/py2coq.py, fail-closed)."""
+    rc, out = sh('%s %s %s' % (sys.executable, os.path.join(VERIF, 'tools', 'py2coq.py'), os.path.join(THEORIES, 'Gen', 'Src.v')), timeout=120)
+    return out.strip()
+
+
 def ensure_build():
-    """Full .vo build of the Coq development (no-op when up to date).
-    Returns (ok, log). A broken proof file does not stop other files (-k)."""
+    """Source translation, then a full .vo build of the Coq development (no-op when up to date).
+    Returns (ok, log, failed) with failed = the targets make could not build. A broken proof file does not stop other files (-k)."""
     with Lock('make.lock'):
+        tlog = translate_sources()
         if not os.path.exists(os.path.join(COQ, 'Makefile')):
             sh('coq_makefile -f _CoqProject -o Makefile', cwd=COQ)
-        rc, out = sh('timeout 3000 make -k -j16 2>&1 | tail -60', cwd=COQ, timeout=3100)
+        rc, out = sh('timeout 3000 make -k -j16 2>&1 | tail -200', cwd=COQ, timeout=3100)
         ok = 'Error' not in out and 'rror:' not in out and '***' not in out
-        return ok, out
+        failed = sorted(set(re.findall(r'\*\*\* \[[^\]]*?(theories/[\w/]+)\.vo\]', out)))
+        if tlog:
+            out = tlog + '\n' + out
+        return ok, out, failed
+
+
+def build_concerns(pid, failed):
+    """does a failed build concern property pid?  Props/Cxx*.v only concern Cxx, the source-tie files the properties they serve."""
+    if not failed:
+        return True            # errors that could not be attributed to a file: concern everything
+    for f in failed:
+        m = re.match(r'theories/Props/(C\d\d)', f)
+        if m:
+            if m.group(1) == pid:
+                return True
+        elif f in SRC_SCOPE:
+            if pid in SRC_SCOPE[f]:
+                return True
+        else:
+            return True
+    return False
 
 
 def theorems_in(path):
@@ -81,22 +113,17 @@ def theorems_in(path):
     return re.findall(r'^\s*(?:Theorem|Lemma)\s+(\w+)', src, flags=re.M), src
 
 
-def audit_proofs(pid):
-    """Re-check Props/<pid>.v with coqc (fresh Print Assumptions output) and
-    audit the sources. Returns dict(obligations, discharged, detail, problems)."""
-    pfile = os.path.join(THEORIES, 'Props', pid + '.v')
-    problems = []
-    names, _ = theorems_in(pfile) if os.path.exists(pfile) else ([], '')
-    if not names:
-        problems.append('no theorem file for %s' % pid)
-        return dict(obligations=0, discharged=0, detail={}, problems=problems, checker_cmd='')
+def audit_file(fname):
+    """coqc on Props/<fname>.v with fresh Print Assumptions output: (names, detail, problems, rc, cmd)"""
+    pfile = os.path.join(THEORIES, 'Props', fname + '.v')
+    problems, detail = [], {}
+    names, _ = theorems_in(pfile)
     outdir = os.path.join(BUILD, 'props')
     os.makedirs(outdir, exist_ok=True)
-    cmd = 'timeout 600 coqc -q -Q theories Epsie -w -notation-overridden theories/Props/%s.v -o %s/%s.vo' % (pid, outdir, pid)
+    cmd = 'timeout 600 coqc -q -Q theories Epsie -w -notation-overridden theories/Props/%s.v -o %s/%s.vo' % (fname, outdir, fname)
     rc, out = sh(cmd, cwd=COQ, timeout=700)
-    detail = {}
     if rc != 0:
-        problems.append('coqc failed on Props/%s.v: %s' % (pid, out.strip()[-600:]))
+        problems.append('coqc failed on Props/%s.v: %s' % (fname, out.strip()[-600:]))
         for nm in names:
             detail[nm] = 'unchecked'
     else:
@@ -119,6 +146,33 @@ def audit_proofs(pid):
                     problems.append('theorem %s depends on non-allowed axioms %s' % (nm, bad))
         if len(blocks) != len(printed):
             problems.append('Print Assumptions output count mismatch (%d vs %d)' % (len(blocks), len(printed)))
+    return names, detail, problems, rc, cmd
+
+
+def prop_files(pid):
+    """Props/<pid>.v and, where the property has one, the source-tie statements Props/<pid>_src.v"""
+    out = [pid] if os.path.exists(os.path.join(THEORIES, 'Props', pid + '.v')) else []
+    if os.path.exists(os.path.join(THEORIES, 'Props', pid + '_src.v')):
+        out.append(pid + '_src')
+    return out
+
+
+def audit_proofs(pid):
+    """Re-check Props/<pid>.v (and Props/<pid>_src.v) with coqc (fresh Print Assumptions output) and
+    audit the sources. Returns dict(obligations, discharged, detail, problems)."""
+    problems, detail, names, rcs, cmds = [], {}, [], [], []
+    for fname in prop_files(pid):
+        n_, d_, p_, rc_, cmd_ = audit_file(fname)
+        names += n_
+        detail.update(d_)
+        problems += p_
+        rcs.append(rc_)
+        cmds.append(cmd_)
+    if not names:
+        problems.append('no theorem file for %s' % pid)
+        return dict(obligations=0, discharged=0, detail={}, problems=problems, checker_cmd='')
+    rc = max(rcs)
+    cmd = ' && '.join(cmds)
     # source audit over all theories
     for root, _, files in os.walk(THEORIES):
         for fn in files:
@@ -136,8 +190,8 @@ def audit_proofs(pid):
                         continue   # inside a Section: becomes a universally quantified premise
                 problems.append('forbidden token %r in %s' % (word, os.path.relpath(os.path.join(root, fn), VERIF)))
     ok_names = [n for n in names if detail.get(n, '').startswith(('closed', 'axioms'))]
-    if rc != 0 or any(('forbidden' in p_ or 'mismatch' in p_) for p_ in problems):
-        discharged = 0
+    if any(('forbidden' in p_ or 'mismatch' in p_) for p_ in problems):
+        discharged = 0           # (theorems of a file that failed to compile are 'unchecked' and not counted below)
     else:
         discharged = len([n for n in ok_names if not any(('theorem %s ' % n) in p_ for p_ in problems)])
     return dict(obligations=len(names), discharged=discharged, detail=detail, problems=problems, checker_cmd=cmd)
@@ -150,7 +204,7 @@ COQCHK_ALLOWED_PREFIXES = ('Coq.', 'Flocq.', 'Coquelicot.', 'mathcomp.', 'Interv
 def coqchk(pid):
     """Independent re-check of Props/<pid>.vo and everything it depends on (coqchk -o); returns
     dict(ok, axioms, problems, cmd, wall_s).  Serialised: coqchk needs up to ~4 GB."""
-    cmd = 'timeout 2400 coqchk -silent -o -Q theories Epsie Epsie.Props.%s' % pid
+    cmd = 'timeout 2400 coqchk -silent -o -Q theories Epsie %s' % ' '.join('Epsie.Props.' + f for f in prop_files(pid))
     t0 = time.time()
     with Lock('coqchk.lock'):
         rc, out = sh(cmd, cwd=COQ, timeout=2500)
